@@ -299,15 +299,13 @@ namespace vp {
         }
         _exit(97);
       });
+      installCrashHandlers();
     }
     static void installCrashHandlers() {
       for (int s : {SIGSEGV, SIGABRT, SIGFPE, SIGBUS, SIGILL}) {
         signal(s, [](int sig) {
-          if (file()) {
-            fprintf(file(), "{\"e\":\"Crash\",\"sig\":%d}\n", sig);
-            fflush(file());
-          }
-          _exit(98);
+          if (file()) fflush(file());   // keep what was observed so far: the next case is the culprit
+          _exit(128 + sig);
         });
       }
     }
